@@ -403,6 +403,7 @@ def s_sets(F, res):
 
 
 def h_iter(F, res):
+    e6.CURRENT_F = F
     cg = CallGraph(F, callbacks=False)
     roots = ["<tx3_cardano::Compiler as tx3_tir::compile::Compiler>::compile"]
     reach = cg.reachable(roots)
@@ -435,6 +436,32 @@ def h_iter(F, res):
                 res.add([ok("H-ITER", key, w, "D-TABLE: " + rows[key])])
             else:
                 res.add([finding("H-ITER", key, w, "hash-container iteration with an order-dependent consumer (%s): the same template compiles to different bytes from one run to the next" % why)])
+    # a generic helper that iterates "whatever it is given" (`fn refs_of<'a>(utxos: impl IntoIterator<Item = &'a Utxo>)`), called
+    # with a hash container: the helper's body is read as instantiated at that call
+    for p in sorted(reach):
+        f = F.fns[p]
+        if is_derive(f):
+            continue
+        for bi, t in mir.calls(f):
+            h = F.fns.get(t.get("resolved") or t.get("callee") or "")
+            if h is None or not h["crate"].startswith("tx3") or not h.get("generics") or not any(e6.HASH_TY.search(g_) for g_ in (t.get("gargs") or [])):
+                continue
+            sub = mir._generic_subst(h, t)
+            if not sub:
+                continue
+            hb = mir.instantiate_body(F, h, sub)
+            for bj, t2 in mir.calls(hb):
+                hh = e6.is_hash_iter(t2)
+                if not hh:
+                    continue
+                n += 1
+                kind, why = e6.classify(hb, bj)
+                key = "%s|%s (instantiated from %s)" % (h["path"], hh.split("::")[-1] if "::" in hh else hh, p.split("::")[-1])
+                w = where(h, t2["line"])
+                if kind == "neutral":
+                    res.add([ok("H-ITER", key, w, why)])
+                else:
+                    res.add([finding("H-ITER", key, w, "hash-container iteration with an order-dependent consumer (%s): the same template compiles to different bytes from one run to the next" % why)])
     res.count("hash iteration sites in the compile closure", n)
     res.count("functions in the compile closure", len(reach))
     res.floor("functions in the compile closure", len(reach), 80)
